@@ -76,6 +76,12 @@ type Op struct {
 	AfterMs  int                    `json:"deadline_ms,omitempty"` // shutdown: deadline
 	Signal   bool                   `json:"signal,omitempty"`      // shutdown: cancel the runner context first (as the binary does)
 	HTTP     bool                   `json:"http,omitempty"`        // go through the HTTP handler
+	// kind "http" (C14): an arbitrary route with an arbitrary credential
+	Route     int    `json:"route,omitempty"`     // index into the routes discovered from the router (modulo their number)
+	Cred      string `json:"cred,omitempty"`      // credential class, see credClasses
+	Transport string `json:"transport,omitempty"` // header (default) | header_lower | cookie
+	ExpS      int    `json:"exp_s,omitempty"`     // exp claim, seconds after the start of the run (0: none)
+	NbfS      int    `json:"nbf_s,omitempty"`     // nbf claim, seconds after the start of the run (0: none)
 }
 
 // RunConfig: fault kinds, weights and component selection of a run (swarm style).
@@ -98,6 +104,7 @@ type RunConfig struct {
 	TapeTasks bool   `json:"tape_tasks,omitempty"`  // false: tasks succeed unless a fate says otherwise
 	Readers   bool   `json:"readers_inside,omitempty"`
 	PollMs    int    `json:"shutdown_poll_ms,omitempty"`
+	Profiling bool   `json:"profiling,omitempty"` // HTTP server built with the profiling routes enabled
 	NoOracle  bool   `json:"no_oracle,omitempty"` // race configuration: the driver makes no calls into the runner
 	PersistCheck bool `json:"persist_check,omitempty"` // settle actions wait three persist pauses and compare store and API
 }
@@ -409,6 +416,16 @@ func Generate(seed uint64, profile string, faults bool) *Scenario {
 		o.delayPermille = 50
 		mix = map[string]int{"schedule": 10, "cancel": 1, "read": 2}
 		cfg.HTTP = true
+	case "C14":
+		cfg.HTTP = true
+		cfg.Profiling = g.p(500)
+		mix = map[string]int{"schedule": 4, "cancel": 1, "http": 14}
+		o.maxPipes = 1
+		o.maxTasks = 2
+		o.cyclePermille = 0
+		o.delayPermille = 100
+		cfg.WAdvance = 4
+		opsPer = 8 + g.n(10)
 	case "C15":
 		mix = map[string]int{"schedule": 10, "cancel": 3, "read": 2, "list": 3}
 		cfg.WSettle = 2
@@ -548,6 +565,8 @@ func Generate(seed uint64, profile string, faults bool) *Scenario {
 				op.Job = 1 + g.n(scheduled+2)
 			case "reload":
 				op.Defs = g.n(len(sc.Defs))
+			case "http":
+				genAuthOp(g, &op, scheduled)
 			}
 			if cfg.HTTP && g.p(400) && (kind == "schedule" || kind == "cancel" || kind == "read" || kind == "list") {
 				op.HTTP = true
@@ -734,4 +753,44 @@ func richVars(g gen) map[string]interface{} {
 		m[key] = richPool[g.n(len(richPool))]
 	}
 	return m
+}
+
+
+// genAuthOp draws a route, a credential class, a transport and - for the classes that are
+// time dependent - claims at seeded distances from the start of the run, so that the fake
+// clock crosses exp / nbf while requests are being issued.
+func genAuthOp(g gen, op *Op, scheduled int) {
+	op.Route = g.n(64)
+	op.Job = 1 + g.n(scheduled+2)
+	op.Cred = credClasses[g.n(len(credClasses))]
+	if g.p(350) {
+		op.Cred = "valid_window"
+	}
+	switch g.n(5) {
+	case 0:
+		op.Transport = "cookie"
+	case 1:
+		op.Transport = "header_lower"
+	}
+	near := []int{1, 2, 3, 5, 10, 60, 3600, 7300}
+	switch op.Cred {
+	case "expired":
+		op.ExpS = -near[g.n(len(near))]
+	case "not_yet_valid":
+		op.NbfS = 100000 + near[g.n(len(near))]
+	case "valid":
+		if g.p(500) {
+			op.ExpS = 10_000_000
+		}
+	case "valid_window":
+		// anything: the oracle computes validity from the instant of the request
+		if g.p(700) {
+			op.ExpS = near[g.n(len(near))]
+		}
+		if g.p(500) {
+			op.NbfS = near[g.n(len(near))]
+		}
+	case "wrong_secret", "alg_none", "hs384", "hs512", "rs256_header":
+		op.ExpS = 10_000_000
+	}
 }
